@@ -16,7 +16,10 @@ class Family:
             from discopy import monoidal as m
             self.m = m
             self.rigid = False
-        elif name in ("rigid", "pro"):
+        elif name in ("rigid", "pro", "mixed"):
+            # "mixed": rigid diagrams in which every generic box whose wires all have winding
+            # number 0 is a plain monoidal.Box on monoidal.Ty (cat.Ob objects) — supported by
+            # rigid.Ob.__eq__/rigid.Ty.__init__; same (name, z) reading as the rigid family.
             from discopy import rigid as m
             self.m = m
             self.rigid = True
@@ -37,6 +40,8 @@ class Family:
             return self.m.PRO(len(spec))
         return self.m.Ty(*[self.ob(o) for o in spec])
 
+    watch = None     # optional callable(what, value) -> value, sees every sub-result of `run`
+
     def box(self, b):
         m = self.m
         if b["kind"] == "g":
@@ -45,6 +50,11 @@ class Family:
                 kw["data"] = b["data"]
             if b["dagger"]:
                 kw["_dagger"] = True
+            if self.name == "mixed" and all(z == 0 for _, z in b["dom"] + b["cod"]):
+                from discopy import monoidal
+                from discopy.cat import Ob
+                return monoidal.Box(b["name"], monoidal.Ty(*[Ob(n) for n, _ in b["dom"]]),
+                                    monoidal.Ty(*[Ob(n) for n, _ in b["cod"]]), **kw)
             return m.Box(b["name"], self.ty(b["dom"]), self.ty(b["cod"]), **kw)
         if b["kind"] == "s":
             return m.Swap(self.ty(b["dom"][:1]), self.ty(b["dom"][1:]))
@@ -56,10 +66,24 @@ class Family:
 
     def run(self, e):
         """Evaluate an expression on the real code."""
+        out = self._run(e)
+        if self.watch is not None:
+            self.watch(e[0], out)
+        return out
+
+    def _run(self, e):
         m = self.m
         op = e[0]
         if op == "mk":
             _, dom, cod, boxes, offsets = e
+            if self.name == "mixed" and all(
+                    b["kind"] == "g" for b in boxes) and all(
+                    z == 0 for _, z in sum([b["dom"] + b["cod"] for b in boxes], dom + cod)):
+                from discopy import monoidal       # an entirely plain sub-diagram
+                from discopy.cat import Ob
+                return monoidal.Diagram(monoidal.Ty(*[Ob(n) for n, _ in dom]),
+                                        monoidal.Ty(*[Ob(n) for n, _ in cod]),
+                                        [self.box(b) for b in boxes], list(offsets))
             return m.Diagram(self.ty(dom), self.ty(cod),
                              [self.box(b) for b in boxes], list(offsets))
         if op == "box":
@@ -93,7 +117,10 @@ class Family:
         if op == "caps":
             return m.Diagram.caps(self.ty(e[1]), self.ty(e[2]))
         if op == "transpose":
-            return self.run(e[1]).transpose(left=e[2])
+            d = self.run(e[1])
+            if self.name == "mixed" and not isinstance(d, m.Diagram):
+                d = m.Id(m.Ty()) @ d        # a bare plain box/diagram: make it a rigid diagram
+            return d.transpose(left=e[2])
         raise ValueError(op)
 
 
